@@ -85,8 +85,14 @@ func (cm *MemClientMgr) Add(cc *ClientConn) {
 	cm.mu.Lock()
 	defer cm.mu.Unlock()
 
-	cm.nextClientID.Add(1)
-	binary.BigEndian.PutUint16(cc.ID[:], uint16(cm.nextClientID.Load()))
+	// Client IDs are 16 bit on the wire, so the counter wraps after 65535 connections.  Skip the
+	// IDs still held by connected clients so that a live client is never shadowed by a new one.
+	for {
+		binary.BigEndian.PutUint16(cc.ID[:], uint16(cm.nextClientID.Add(1)))
+		if _, used := cm.clients[cc.ID]; !used {
+			break
+		}
+	}
 
 	cm.clients[cc.ID] = cc
 }
